@@ -1,6 +1,6 @@
 (* C10 — defaults and triggered calculations are applied exactly once.
    Only statements closed by exact, with Print Assumptions beneath each. *)
-Require Import PX.Base.Str PX.Model.Warnings PX.Model.Tree PX.Proofs.Tree PX.Gen.Defaults PX.Model.Defaults PX.Proofs.Defaults PX.Gen.Lexer PX.Model.Scanner PX.Proofs.Scanner PX.Proofs.PinsScanner.
+Require Import PX.Base.Str PX.Model.Warnings PX.Model.Tree PX.Proofs.Tree PX.Gen.Defaults PX.Model.Defaults PX.Proofs.Defaults PX.Gen.Lexer PX.Model.Scanner PX.Proofs.Scanner PX.Proofs.PinsScanner PX.Model.Names PX.Model.RefText PX.Proofs.RefText.
 From Coq Require Import Permutation.
 
 (* every node of a question in the primary instance, repeat templates included, holds the static default of THAT question
@@ -71,6 +71,12 @@ Theorem C10_text_classifier : forall d ty, mem ty HYPHEN_TYPES = false ->
   (default_is_dynamic tokens d ty = false <-> d = [] \/ Forall (fun t => mem (fst t) DYNAMIC_TOKEN_NAMES = false) (tokens d)).
 Proof. exact text_classifier. Qed.
 Print Assumptions C10_text_classifier.
+(* a default that is a reference, to the live form or to the last saved one, is dynamic for EVERY NCName and EVERY question type *)
+Theorem C10_reference_default_is_dynamic : forall name ty, ncname_plain name ->
+  default_is_dynamic tokens ([36;123]%N ++ name ++ [125]%N) ty = true /\
+  default_is_dynamic tokens ([36;123]%N ++ LAST_SAVED ++ name ++ [125]%N) ty = true.
+Proof. exact reference_default_is_dynamic. Qed.
+Print Assumptions C10_reference_default_is_dynamic.
 (* the 26 patterns and their order are the ones the model was written from (regenerated from /repo on every run) *)
 Theorem C10_scanner_patterns_pinned : patterns_as_modelled.
 Proof. exact scanner_patterns_pinned. Qed.
